@@ -191,6 +191,10 @@ pub struct Profile {
     /// until then the worker keeps its resources
     #[serde(default)]
     pub slow_stop: bool,
+    /// workers run with `--on-server-lost finish-running`: a worker whose connection is lost goes on until its running
+    /// tasks have ended (the REAL finish_tasks_on_server_lost), while the server has already given its tasks to others
+    #[serde(default)]
+    pub finish_running: bool,
 }
 
 fn yes() -> bool {
@@ -359,6 +363,12 @@ struct SimW {
     retract: tokio::task::JoinHandle<()>,
 }
 
+/// a worker that lost its server and finishes its running tasks (policy finish-running)
+struct Orphan {
+    sw: SimW,
+    done: Rc<std::cell::Cell<bool>>,
+}
+
 struct ClientConn {
     tx: fmpsc::UnboundedSender<tako::Result<FromClientMessage>>,
     rx: fmpsc::UnboundedReceiver<ToClientMessage>,
@@ -388,6 +398,7 @@ pub struct Cluster {
     shared: Rc<RefCell<Shared>>,
     client: ClientConn,
     streams: Vec<StreamClient>,
+    orphans: BTreeMap<u32, Orphan>,
     server_dir: ServerDir,
     _tmp: tempfile::TempDir,
     base: Instant,
@@ -773,6 +784,7 @@ impl Cluster {
             shared: Rc::new(RefCell::new(Shared { slow_stop: profile.slow_stop, ..Shared::default() })),
             client,
             streams: Vec::new(),
+            orphans: BTreeMap::new(),
             server_dir,
             _tmp: tmp,
             base: Instant::now(),
@@ -842,7 +854,7 @@ impl Cluster {
                 Some(HOUR * k.time_limit)
             },
             retract_check_interval: HOUR,
-            on_server_lost: ServerLostPolicy::Stop,
+            on_server_lost: if self.profile.finish_running { ServerLostPolicy::FinishRunning } else { ServerLostPolicy::Stop },
             min_utilization: 0.0,
             extra: Default::default(),
         };
@@ -952,6 +964,18 @@ impl Cluster {
                 self.sent
                     .push(json!({"ch": "w2s", "w": w, "m": from_worker_json(&m)}));
                 sw.w2s.push_back(m);
+            }
+        }
+        // orphaned workers: what they still say goes nowhere; once the policy code is satisfied the worker ends
+        let finished: Vec<u32> = self.orphans.iter().filter(|(_, o)| o.done.get()).map(|(w, _)| *w).collect();
+        for o in self.orphans.values_mut() {
+            let _ = o.sw.worker.take_messages();
+        }
+        for w in finished {
+            if let Some(mut o) = self.orphans.remove(&w) {
+                o.sw.worker.shutdown();
+                self.shared.borrow_mut().handles.retain(|(ww, _), _| *ww != w);
+                self.shared.borrow_mut().dying.retain(|(ww, _), _| *ww != w);
             }
         }
         // streaming clients
@@ -1529,12 +1553,27 @@ impl Cluster {
                 }
                 let mut sw = self.workers.remove(w).unwrap();
                 sw.retract.abort();
-                sw.worker.shutdown();
                 let dropped_w2s: Vec<Value> = sw.w2s.iter().map(from_worker_json).collect();
-                self.shared.borrow_mut().handles.retain(|(ww, _), _| ww != w);
-                self.shared.borrow_mut().dying.retain(|(ww, _), _| ww != w);
-                self.server.lose_worker(WorkerId::new(*w), reason_from(reason));
-                drop(sw);
+                if self.profile.finish_running && reason == "connection" && !was_stopped {
+                    // the worker goes on alone: the real policy code decides what it still does; its executions stay alive
+                    let fut = sw.worker.server_lost();
+                    let done = Rc::new(std::cell::Cell::new(false));
+                    let d2 = done.clone();
+                    tokio::task::spawn_local(async move {
+                        fut.await;
+                        d2.set(true);
+                    });
+                    sw.s2w.clear();
+                    sw.w2s.clear();
+                    self.server.lose_worker(WorkerId::new(*w), reason_from(reason));
+                    self.orphans.insert(*w, Orphan { sw, done });
+                } else {
+                    sw.worker.shutdown();
+                    self.shared.borrow_mut().handles.retain(|(ww, _), _| ww != w);
+                    self.shared.borrow_mut().dying.retain(|(ww, _), _| ww != w);
+                    self.server.lose_worker(WorkerId::new(*w), reason_from(reason));
+                    drop(sw);
+                }
                 self.collect().await;
                 (
                     "Lose".into(),
